@@ -2,7 +2,7 @@
 //! Every history of begin / commit / rollback / set / set_nested / remove over 3 keys, compared
 //! after every operation with a stack-of-snapshots model.
 use crate::explore::{self, Config, Mismatch, System};
-use crate::report::{hstr, Report};
+use crate::report::{hstr, Report, Violation};
 use crate::{Opts, Tier};
 use rust_rule_engine::engine::facts::Facts;
 use rust_rule_engine::types::Value;
@@ -214,8 +214,217 @@ pub fn replay_frames(case: &serde_json::Value) -> crate::props::ReplayResult {
     crate::props::conv(explore::replay(&move || Sys::new(level), &ch))
 }
 
+
+/// (c) rules whose execution raises an error part-way through their actions (a method call that cannot be carried out
+/// after an earlier assignment). This goes beyond the Horn-style rule sets of the property's quantifier; the statement
+/// itself ("reported not provable => the caller's facts are as before") is checked unchanged.
+#[derive(Clone, Debug)]
+struct ErrCase {
+    cond_kind: usize,
+    seq: Vec<usize>,
+    alt: usize,
+    init: u32,
+    goal: String,
+    strategy: usize,
+    max_solutions: usize,
+    max_depth: usize,
+}
+
+impl ErrCase {
+    fn json(&self) -> serde_json::Value {
+        json!({"sub": "erroring_actions", "condition_kind": self.cond_kind, "actions": self.seq, "second_candidate": self.alt, "init": self.init, "goal": self.goal,
+            "strategy": self.strategy, "max_solutions": self.max_solutions, "max_depth": self.max_depth,
+            "rendered": format!("Mid: A.base -> A.mid = true; Finish: {} -> {:?} (0 A.tmp = 1, 1 Car.setSpeed(\"fast\"), 2 Car.setSpeed(50), 3 A.goal = true); second candidate for A.goal: {}; initial facts bits (Car, other, mid, base) = {:04b}; query `{}` with {} max_solutions {} max_depth {}",
+                ["A.mid", "A.base", "A.base && A.mid"][self.cond_kind], self.seq, ["none", "after Finish", "before Finish"][self.alt], self.init, self.goal, ["DFS", "BFS", "Iterative"][self.strategy], self.max_solutions, self.max_depth)})
+    }
+    fn from_json(c: &serde_json::Value) -> ErrCase {
+        ErrCase {
+            cond_kind: c["condition_kind"].as_u64().unwrap_or(0) as usize,
+            seq: c["actions"].as_array().map(|a| a.iter().map(|x| x.as_u64().unwrap_or(0) as usize).collect()).unwrap_or_default(),
+            alt: c["second_candidate"].as_u64().unwrap_or(0) as usize,
+            init: c["init"].as_u64().unwrap_or(0) as u32,
+            goal: c["goal"].as_str().unwrap_or("A.goal == true").to_string(),
+            strategy: c["strategy"].as_u64().unwrap_or(0) as usize,
+            max_solutions: c["max_solutions"].as_u64().unwrap_or(1) as usize,
+            max_depth: c["max_depth"].as_u64().unwrap_or(10) as usize,
+        }
+    }
+    fn kb(&self) -> rust_rule_engine::KnowledgeBase {
+        use rust_rule_engine::types::{ActionType, Operator};
+        use rust_rule_engine::{Condition, ConditionGroup, KnowledgeBase, Rule};
+        let cond = |f: &str| ConditionGroup::single(Condition::new(f.to_string(), Operator::Equal, Value::Boolean(true)));
+        let and = |a: ConditionGroup, b: ConditionGroup| ConditionGroup::Compound { left: Box::new(a), operator: rust_rule_engine::types::LogicalOperator::And, right: Box::new(b) };
+        // action letters: 0 A.tmp = 1, 1 Car.setSpeed("fast") (always an error), 2 Car.setSpeed(50) (an error without a Car), 3 A.goal = true
+        let action = |k: usize| match k {
+            0 => ActionType::Set { field: "A.tmp".into(), value: Value::Integer(1) },
+            1 => ActionType::MethodCall { object: "Car".into(), method: "setSpeed".into(), args: vec![Value::String("fast".into())] },
+            2 => ActionType::MethodCall { object: "Car".into(), method: "setSpeed".into(), args: vec![Value::Number(50.0)] },
+            _ => ActionType::Set { field: "A.goal".into(), value: Value::Boolean(true) },
+        };
+        let kb = KnowledgeBase::new("c10c");
+        let mid = Rule::new("Mid".into(), cond("A.base"), vec![ActionType::Set { field: "A.mid".into(), value: Value::Boolean(true) }]);
+        let fin = Rule::new(
+            "Finish".into(),
+            match self.cond_kind {
+                0 => cond("A.mid"),
+                1 => cond("A.base"),
+                _ => and(cond("A.base"), cond("A.mid")),
+            },
+            self.seq.iter().map(|k| action(*k)).collect(),
+        );
+        let other = Rule::new("Alt".into(), cond("A.other"), vec![ActionType::Set { field: "A.goal".into(), value: Value::Boolean(true) }]);
+        let mut rules = vec![mid, fin];
+        match self.alt {
+            1 => rules.push(other),
+            2 => rules.insert(0, other),
+            _ => {}
+        }
+        for r in rules {
+            kb.add_rule(r).unwrap_or_else(|e| crate::explore::machinery(&format!("C10 add_rule: {:?}", e)));
+        }
+        kb
+    }
+    /// Ok(outcome label) or Err((class, detail))
+    fn run(&self, kb: &rust_rule_engine::KnowledgeBase) -> Result<&'static str, (String, String)> {
+        use rust_rule_engine::backward::{BackwardConfig, BackwardEngine, SearchStrategy};
+        let mut facts = Facts::new();
+        if self.init & 1 != 0 {
+            facts.set("A.base", Value::Boolean(true));
+        }
+        if self.init & 2 != 0 {
+            facts.set("A.mid", Value::Boolean(true));
+        }
+        if self.init & 4 != 0 {
+            facts.set("A.other", Value::Boolean(true));
+        }
+        if self.init & 8 != 0 {
+            let mut car = HashMap::new();
+            car.insert("Speed".to_string(), Value::Number(30.0));
+            facts.set("Car", Value::Object(car));
+        }
+        let before: BTreeMap<String, String> = facts.get_all_facts().into_iter().map(|(k, v)| (k, format!("{:?}", v))).collect();
+        let kbc = kb.clone();
+        let strategy = match self.strategy {
+            0 => SearchStrategy::DepthFirst,
+            1 => SearchStrategy::BreadthFirst,
+            _ => SearchStrategy::Iterative,
+        };
+        let (max_depth, max_solutions) = (self.max_depth, self.max_solutions);
+        let goal = self.goal.clone();
+        let r = std::panic::catch_unwind(std::panic::AssertUnwindSafe(|| {
+            let mut e = BackwardEngine::with_config(kbc, BackwardConfig { max_depth, strategy, enable_memoization: false, max_solutions });
+            e.query(&goal, &mut facts)
+        }));
+        match r {
+            Err(_) => {
+                let _ = crate::explore::take_panic();
+                Ok("panics_caught")
+            }
+            Ok(Err(_)) => Ok("query_errors"),
+            Ok(Ok(res)) => {
+                if res.provable {
+                    return Ok("provable");
+                }
+                let after: BTreeMap<String, String> = facts.get_all_facts().into_iter().map(|(k, v)| (k, format!("{:?}", v))).collect();
+                if after != before {
+                    return Err(("failed_proof_changed_facts".into(), format!("not provable, but the facts changed: before {:?}, after {:?}", before, after)));
+                }
+                // no speculative frame of the search is still open on the facts handed back
+                facts.set("A.late", Value::Integer(1));
+                facts.rollback_undo_frame();
+                if facts.get("A.late") != Some(Value::Integer(1)) {
+                    return Err(("failed_proof_left_an_undo_frame_open".into(), "after a not-provable query, a write by the caller followed by rollback_undo_frame() (no frame opened by the caller) was undone".into()));
+                }
+                Ok("not_provable")
+            }
+        }
+    }
+}
+
+pub fn run_failing_actions(opts: &Opts) -> Vec<Report> {
+    let name = "failed_proofs_with_erroring_actions";
+    if !crate::props::wants(opts, name) {
+        return vec![];
+    }
+    let t0 = std::time::Instant::now();
+    let mut rep = Report::new(name);
+    let max_len = if opts.tier == Tier::Quick { 3 } else { 4 };
+    let mut seqs: Vec<Vec<usize>> = vec![];
+    for len in 1..=max_len {
+        let mut idx = vec![0usize; len];
+        loop {
+            seqs.push(idx.clone());
+            let mut i = 0;
+            while i < len {
+                idx[i] += 1;
+                if idx[i] < 4 {
+                    break;
+                }
+                idx[i] = 0;
+                i += 1;
+            }
+            if i == len {
+                break;
+            }
+        }
+    }
+    for cond_kind in 0..3usize {
+        for seq in &seqs {
+            for alt in 0..3usize {
+                // alt: 0 no second candidate, 1 a second candidate for the goal after Finish, 2 before it
+                let mut c = ErrCase { cond_kind, seq: seq.clone(), alt, init: 0, goal: String::new(), strategy: 0, max_solutions: 1, max_depth: 10 };
+                let kb = c.kb();
+                rep.count("programs", 1);
+                for init in 0..16u32 {
+                    for goal in ["A.goal == true", "A.tmp == 1"] {
+                        for strategy in 0..3usize {
+                            for max_solutions in [1usize, 3] {
+                                for max_depth in [2usize, 10] {
+                                    c.init = init;
+                                    c.goal = goal.to_string();
+                                    c.strategy = strategy;
+                                    c.max_solutions = max_solutions;
+                                    c.max_depth = max_depth;
+                                    rep.count("evaluations", 1);
+                                    match c.run(&kb) {
+                                        Ok(label) => {
+                                            rep.count(label, 1);
+                                            if label == "not_provable" && seq.iter().any(|k| *k == 1 || (*k == 2 && init & 8 == 0)) {
+                                                rep.count("not_provable_with_an_erroring_action_in_the_rule", 1);
+                                            }
+                                        }
+                                        Err((class, detail)) => rep.violation(Violation { class, detail, tags: vec![format!("strategy_{}", ["dfs", "bfs", "iterative"][strategy])], case: c.json() }),
+                                    }
+                                }
+                            }
+                        }
+                    }
+                }
+            }
+        }
+    }
+    rep.sample(ErrCase { cond_kind: 0, seq: vec![0, 1, 3], alt: 0, init: 1, goal: "A.goal == true".into(), strategy: 0, max_solutions: 1, max_depth: 10 }.json());
+    rep.bound = format!("rules Mid (A.base -> A.mid) and Finish (3 conditions x every action list of length <= {} over A.tmp = 1 / Car.setSpeed(\"fast\") / Car.setSpeed(50) / A.goal = true), with no / a later / an earlier second candidate for the goal, built through the Rule API x 16 initial fact stores (Car present or not) x 2 goals x DFS/BFS/iterative x max_solutions 1, 3 x max_depth 2, 10", max_len);
+    rep.notes.push("beyond the property's quantifier (Horn-style assignments only): rules whose execution raises an error after an earlier assignment".into());
+    rep.wall_s = t0.elapsed().as_secs_f64();
+    vec![rep]
+}
+
+pub fn replay_failing_actions(case: &serde_json::Value) -> crate::props::ReplayResult {
+    let c = ErrCase::from_json(case);
+    let kb = c.kb();
+    let hist = vec![case["rendered"].as_str().unwrap_or("").to_string()];
+    for _ in 0..25 {
+        if let Err((class, detail)) = c.run(&kb) {
+            return Err((hist, class, detail));
+        }
+    }
+    Ok(hist)
+}
+
 pub fn run(opts: &Opts) -> Vec<Report> {
     let mut out = run_frames(opts);
+    out.extend(run_failing_actions(opts));
     // (b) failed proofs leave the facts untouched: the C09 enumeration with the before/after oracle
     out.extend(crate::props::c09::run_mode(opts, crate::props::c09::Mode::FailedProofs));
     out
@@ -224,6 +433,9 @@ pub fn run(opts: &Opts) -> Vec<Report> {
 pub fn replay(case: &serde_json::Value) -> crate::props::ReplayResult {
     if case["sub"].as_str() == Some("horn") {
         return crate::props::c09::replay_mode(case, crate::props::c09::Mode::FailedProofs);
+    }
+    if case["sub"].as_str() == Some("erroring_actions") {
+        return replay_failing_actions(case);
     }
     replay_frames(case)
 }
